@@ -1,13 +1,20 @@
 ------------------------------ MODULE TraceConv ------------------------------
 (* Trace specification for conversion / support-structure histories on large real objects: every
    recorded step must be a step of SDSConv!CStep; the object keeps the defined content, reports the
-   defined support flags, and is equal to and byte-identical with the directly built structure. *)
-EXTENDS SDSConv, TraceCommon
+   defined support flags, answers sampled queries through every reported support as BVRef defines, and is
+   equal to and byte-identical with the directly built structure. *)
+EXTENDS SDSConv, BVRef, TraceCommon
+AnswerOf(B, op, a) ==
+    CASE op = "rank"  -> RankF(B, a)
+      [] op = "sel"   -> SelectF(B, a)
+      [] op = "sel0"  -> SelectZeroF(B, a)
+      [] op = "pred"  -> PredF(B, a)
+      [] op = "succ"  -> SuccF(B, a)
 VARIABLES l, content, o
 vars == <<l, content, o>>
-TraceInit == l = 1 /\ content = [len |-> 0, runs |-> << >>] /\ o = NewObj("plain")
+TraceInit == l = 1 /\ content = [len |-> 0, runs |-> << >>, cum |-> << >>] /\ o = NewObj("plain")
 Def == /\ l <= Len(Rec) /\ Rec[l].e = "def"
-       /\ content' = [len |-> Rec[l].len, runs |-> Rec[l].runs] /\ UNCHANGED o /\ l' = l + 1
+       /\ content' = [len |-> Rec[l].len, runs |-> Rec[l].runs, cum |-> Rec[l].cum] /\ CumOK(content') /\ UNCHANGED o /\ l' = l + 1
 New == /\ l <= Len(Rec) /\ Rec[l].e = "o_new"
        /\ o' = NewObj(Rec[l].type) /\ UNCHANGED content /\ l' = l + 1
 Call == /\ l <= Len(Rec) /\ Rec[l].e = "o_call"
@@ -16,6 +23,8 @@ Call == /\ l <= Len(Rec) /\ Rec[l].e = "o_call"
              /\ e.flags = Flags(n)
              /\ e.len = content.len /\ e.runs = content.runs
              /\ e.eq = TRUE /\ e.bytes_eq = TRUE
+             \* the answers through every reported support are the defined ones (whatever the history)
+             /\ \A i \in 1..Len(e.ans) : e.ans[i].r = AnswerOf(content, e.ans[i].op, e.ans[i].a)
              /\ o' = n
         /\ UNCHANGED content /\ l' = l + 1
 TraceNext == Def \/ New \/ Call
